@@ -1,13 +1,68 @@
 /-
 C03 (part seq) — the FASTA and FASTQ readers are total.  Property theorems only.
+
+`readAll cfg bs` is the history of the calls of `Read` on a fresh reader over the bytes `bs`,
+made with a budget of (number of input lines + 1) calls: `.ret ⟨s, e⟩` for a call that
+returned the pair `(s, e)`, `.panic p` for a call that panicked (every slice expression and
+nil dereference of the code is explicit in the model), `.unfinished` if the budget ran out
+before `io.EOF`.  Termination of every single call is by structural recursion on the
+remaining lines (accepted by Lean's termination checker).
 -/
-import Biogo.Model.Fasta
-import Biogo.Model.Fastq
+import Biogo.Proofs.Fasta
 
 namespace Biogo.Properties.C03_seq
 open Biogo.Go.Bytes
 
-/-- placeholder while the pipeline is brought up -/
-theorem empty_input_is_eof : Biogo.Fasta.readAll {} [] = [.ret ⟨none, some .eof⟩] := by decide
+section fasta
+open Biogo.Fasta
+
+/-- **never panics** (FASTA): for every byte string, no call of `Read` panics. -/
+theorem fasta_never_panics (bs : Bytes) : ∀ p, Call.panic p ∉ readAll {} bs := by
+  have := readAllAux_total ((splitLines bs).length + 1) {} (splitLines bs) (by simp [Fasta.measure])
+  exact this.1
+
+/-- **progress** (FASTA): the call sequence reaches `io.EOF` within one call per input line
+    plus one — the budget is never exhausted, the history has at most `lineCount bs + 1`
+    entries and its last entry is a call that returned `io.EOF`. -/
+theorem fasta_progress (bs : Bytes) :
+    Call.unfinished ∉ readAll {} bs ∧ (readAll {} bs).length ≤ lineCount bs + 1 ∧
+    ∃ r, (readAll {} bs).getLast? = some (Call.ret r) ∧ r.e = some .eof := by
+  have := readAllAux_total ((splitLines bs).length + 1) {} (splitLines bs) (by simp [Fasta.measure])
+  refine ⟨this.2.1, ?_, this.2.2.2.1⟩
+  have h := this.2.2.1
+  simpa [Fasta.measure, lineCount, readAll] using h
+
+/-- **never neither** (FASTA): every call returns a non-nil sequence or a non-nil error. -/
+theorem fasta_record_or_error (bs : Bytes) :
+    ∀ r, Call.ret r ∈ readAll {} bs → r.s.isSome ∨ r.e.isSome := by
+  have := readAllAux_total ((splitLines bs).length + 1) {} (splitLines bs) (by simp [Fasta.measure])
+  exact this.2.2.2.2
+
+/-- **rejects data before a header** (FASTA): if the first non-blank line does not start with
+    `>`, the first call returns the error "badly formed line" and no sequence. -/
+theorem fasta_rejects_data_before_header (blanks : List Bytes) (raw : Bytes) (rest : List Bytes)
+    (hb : ∀ l ∈ blanks, trimSpace l = []) (hne : trimSpace raw ≠ [])
+    (hp : hasPrefix (trimSpace raw) [62] = false) :
+    read {} {} (blanks ++ raw :: rest) = .ok (⟨none, some (.badLine (trimSpace raw))⟩, {}, rest) := by
+  induction blanks with
+  | nil =>
+    have h0 : ((trimSpace raw).length == 0) = false := by
+      cases h : trimSpace raw with
+      | nil => exact absurd h hne
+      | cons a t => simp
+    simp only [List.nil_append]
+    unfold Fasta.read
+    simp only [h0, hp]
+    simp [hasPrefix, deferred, pure, Except.pure]
+  | cons b bs ih =>
+    rw [List.cons_append, read_blank _ b _ (hb b (by simp))]
+    exact ih (fun l hl => hb l (by simp [hl]))
+
+-- non-vacuity of `fasta_rejects_data_before_header`, and a run on bytes that are no FASTA file
+example : readAll {} [32, 10, 97, 99, 13, 10, 62, 120] =
+    [.ret ⟨none, some (.badLine [97, 99])⟩, .ret ⟨some ⟨[120], [], []⟩, none⟩, .ret ⟨none, some .eof⟩] := by
+  decide
+
+end fasta
 
 end Biogo.Properties.C03_seq
